@@ -234,9 +234,6 @@ impl GenerationCache {
         };
 
         let json = serde_json::to_string(&hash_data)?;
-        #[cfg(feature = "verif-hooks")]
-        let json =
-            crate::verif_hooks::permute_json_members("S9.type_mappings", json, "type_mappings");
         Ok(Self::compute_hash(&json))
     }
 
